@@ -191,6 +191,8 @@ def starts(cfg):
     return {
         "rich": [["mkgrp", G], ["mkds", GD], ["mkds", E], ["attach", GD, "vt.bb"], ["attach", G, "vt.aa"], ["attach", E, "vt.cc"], ["attach", E, "vt.aa"]],
         "nested": [["mkds", GD], ["attach", "/", "vt.cc"], ["attach", GD, "vt.aa"], ["attach", GD, "core.file"], ["copy", "/" + G.strip("/"), H, False]],
+        # several used descendants (child, grandchild, sibling) of an ancestor schema that is never attached itself
+        "descendants": [["mkgrp", G], ["mkds", GD], ["mkds", E], ["attach", GD, "vt.bb"], ["attach", E, "vt.cc"], ["attach", G, "vt.dd"]],
     }
 
 
